@@ -2,8 +2,17 @@
 //! `Populations` + `Random`) on prepared population stacks of uniquely tagged individuals and prints
 //! the outcome and the whole stack afterwards.
 //!
-//! input  `(rep (op NAME [mu]) (seed S) (stack (pop (tag obj)*)*))`   stack top first; obj = xHEX | u
+//! input  `(rep (op NAME [mu]) (seed S) (stack (pop (tag obj)*)*) [(via replace)])`   stack top first; obj = xHEX | u
 //! output `((res ok|(e exec)|panic) (stack (pop …)*))`
+//! With `(via replace)` the component is built with `from_params` and the public trait method
+//! `Replacement::replace` is called directly on the two populations (sites `<Op>/replace`); the output
+//! stack is `(stack (pop r))` for `Ok(r)` and `(stack)` otherwise.
+//!
+//! input  `(freq (mu M) (a A) (b B) (runs N) (seed S))` — frequency oracle for "mu random ones": the real
+//! `RandomReplacement` is executed N times with N different seeds on A parents and B offspring;
+//! output `((counts c*) (pairs p*) (distinct D) (bad K))`: survivals per input position, joint survivals
+//! per pair of positions (upper triangle, row by row), number of distinct results, number of runs that
+//! did not return Ok with min(M, A+B) individuals.
 use hcommon::problems::TagProblem;
 use hcommon::*;
 use mahf::components::replacement::*;
@@ -48,8 +57,100 @@ fn component(op: &[Sx]) -> Box<dyn Component<P>> {
     }
 }
 
+/// Calls `Replacement::replace` directly (not through `execute`) on a component built with `from_params`.
+fn run_replace_direct(op: &[Sx], seed: u64, pops: &[Sx]) -> String {
+    let name = op[0].atom().unwrap().to_string();
+    let mu = op.get(1).and_then(|m| m.nat()).unwrap_or(0) as u32;
+    let offspring = mk_pop(&pops[0]);
+    let parents = mk_pop(&pops[1]);
+    let mut rng = Random::new(seed);
+    let r = catch(move || -> mahf::ExecResult<Vec<Individual<P>>> {
+        match name.as_str() {
+            "discard" => Replacement::<P>::replace(&DiscardOffspring::from_params(), parents, offspring, &mut rng),
+            "generational" => Replacement::<P>::replace(&Generational::from_params(mu), parents, offspring, &mut rng),
+            "merge" => Replacement::<P>::replace(&Merge::from_params(), parents, offspring, &mut rng),
+            "mupl" => Replacement::<P>::replace(&MuPlusLambda::from_params(mu), parents, offspring, &mut rng),
+            "rand" => Replacement::<P>::replace(&RandomReplacement::from_params(mu), parents, offspring, &mut rng),
+            "keepbetter" => Replacement::<P>::replace(&KeepBetterAtIndex::from_params(), parents, offspring, &mut rng),
+            _ => panic!("unknown op {name}"),
+        }
+    });
+    match r {
+        Some(Ok(pop)) => list([tagged("res", ["ok".to_string()]), tagged("stack", [pop_s(&pop)])]),
+        Some(Err(_)) => list([tagged("res", ["(e exec)".to_string()]), tagged("stack", Vec::<String>::new())]),
+        None => list([tagged("res", ["panic".to_string()]), tagged("stack", Vec::<String>::new())]),
+    }
+}
+
+fn nat_arg(s: &Sx) -> u64 {
+    s.head().unwrap().1[0].nat().unwrap()
+}
+
+/// Frequency oracle: `(freq (mu M) (a A) (b B) (runs N) (seed S))`.
+fn run_freq(a: &[Sx]) -> String {
+    let (mu, pa, ob, runs, seed) = (nat_arg(&a[0]), nat_arg(&a[1]) as usize, nat_arg(&a[2]) as usize, nat_arg(&a[3]), nat_arg(&a[4]));
+    let n = pa + ob;
+    let k = (mu as usize).min(n);
+    let mut counts = vec![0u64; n];
+    let mut pairs = vec![vec![0u64; n]; n];
+    let mut seen = std::collections::BTreeSet::new();
+    let mut bad = 0u64;
+    let mut seeds = Sm::new(seed);
+    let problem = TagProblem;
+    let c = RandomReplacement::new::<P>(mu as u32);
+    for _ in 0..runs {
+        let mut state: State<P> = State::new();
+        state.insert(Populations::<P>::new());
+        state.insert(Random::new(seeds.next()));
+        // position i of parents ++ offspring carries tag i; objective values play no role
+        let parents: Vec<Individual<P>> = (0..pa).map(|i| Individual::new(i as u64, SingleObjective::try_from((i % 3) as f64).unwrap())).collect();
+        let offspring: Vec<Individual<P>> = (pa..n).map(|i| Individual::new(i as u64, SingleObjective::try_from((i % 2) as f64).unwrap())).collect();
+        state.populations_mut().push(parents);
+        state.populations_mut().push(offspring);
+        let ok = matches!(catch(|| c.execute(&problem, &mut state)), Some(Ok(())));
+        let pops = state.populations();
+        if !ok || pops.len() != 1 || pops.current().len() != k {
+            bad += 1;
+            continue;
+        }
+        let kept: Vec<usize> = pops.current().iter().map(|i| *i.solution() as usize).collect();
+        let mut mark = vec![false; n];
+        let mut fine = true;
+        for &t in &kept {
+            if t >= n || mark[t] { fine = false; break; }
+            mark[t] = true;
+        }
+        if !fine { bad += 1; continue; }
+        for i in 0..n {
+            if mark[i] {
+                counts[i] += 1;
+                for j in i + 1..n { if mark[j] { pairs[i][j] += 1; } }
+            }
+        }
+        let mut set = kept.clone();
+        set.sort();
+        seen.insert(set);
+    }
+    let mut flat = vec![];
+    for i in 0..n { for j in i + 1..n { flat.push(pairs[i][j]); } }
+    list([
+        tagged("counts", counts.iter().map(|c| c.to_string())),
+        tagged("pairs", flat.iter().map(|c| c.to_string())),
+        tagged("distinct", [seen.len().to_string()]),
+        tagged("bad", [bad.to_string()]),
+    ])
+}
+
 fn run_case(input: &Sx) -> String {
-    let (_, a) = input.head().unwrap();
+    let (tag, a) = input.head().unwrap();
+    if tag == "freq" {
+        return run_freq(a);
+    }
+    if a.len() == 4 {
+        let op = a[0].head().unwrap().1;
+        let seed = a[1].head().unwrap().1[0].nat().unwrap();
+        return run_replace_direct(op, seed, a[2].head().unwrap().1);
+    }
     let op = a[0].head().unwrap().1;
     let seed = a[1].head().unwrap().1[0].nat().unwrap();
     let pops = a[2].head().unwrap().1;
@@ -69,6 +170,17 @@ fn run_case(input: &Sx) -> String {
     let pops = state.populations();
     let stack = (0..pops.len()).map(|d| pop_s(pops.peek(d)));
     list([tagged("res", [res]), tagged("stack", stack)])
+}
+
+fn site_of_input(input: &str) -> String {
+    let sx = Sx::parse(input).unwrap();
+    let (tag, a) = sx.head().unwrap();
+    if tag == "freq" {
+        return "RandomReplacement/freq".to_string();
+    }
+    let op = a[0].head().unwrap().1[0].atom().unwrap().to_string();
+    let base = site(&op, is_malformed(input));
+    if a.len() == 4 { format!("{base}/replace") } else { base }
 }
 
 fn site(op: &str, malformed: bool) -> String {
@@ -120,19 +232,26 @@ fn main() {
     let mut out = Out::new();
     if let Some(r) = a.replay {
         let sx = Sx::parse(&r).expect("bad replay input");
-        let op = sx.head().unwrap().1[0].head().unwrap().1[0].atom().unwrap().to_string();
-        out.case(&site(&op, is_malformed(&r)), &r, &run_case(&sx));
+        out.case(&site_of_input(&r), &r, &run_case(&sx));
         out.finish();
         return;
     }
-    let mut emit = |op: &str, mu: Option<u64>, seed: u64, stack: &[String], _stream_malformed: bool| {
+    let out = std::cell::RefCell::new(out);
+    let emit = |op: &str, mu: Option<u64>, seed: u64, stack: &[String], direct: bool| {
         let ops = match mu {
             Some(m) => format!("(op {op} {m})"),
             None => format!("(op {op})"),
         };
-        let input = tagged("rep", [ops, format!("(seed {seed})"), tagged("stack", stack.iter().cloned())]);
+        let mut parts = vec![ops, format!("(seed {seed})"), tagged("stack", stack.iter().cloned())];
+        if direct { parts.push("(via replace)".to_string()); }
+        let input = tagged("rep", parts);
         let sx = Sx::parse(&input).unwrap();
-        out.case(&site(op, is_malformed(&input)), &input, &run_case(&sx));
+        out.borrow_mut().case(&site_of_input(&input), &input, &run_case(&sx));
+    };
+    let emit_freq = |mu: u64, pa: u64, ob: u64, runs: u64, seed: u64| {
+        let input = format!("(freq (mu {mu}) (a {pa}) (b {ob}) (runs {runs}) (seed {seed}))");
+        let sx = Sx::parse(&input).unwrap();
+        out.borrow_mut().case("RandomReplacement/freq", &input, &run_case(&sx));
     };
     let mut rng = Sm::new(a.seed);
     let grid = [-1.5, 0.0, 2.0];
@@ -207,6 +326,109 @@ fn main() {
         };
         emit(op, mu, rng.below(1 << 32), &stack, false);
     }
+    // 3c. duplicates inside one population (same tag and objective several times among the parents and
+    //     among the offspring): multiplicities matter for "at most as often as it occurred there".
+    let n_dup = if a.thorough { 6000 } else { 800 };
+    for _ in 0..n_dup {
+        let mk = |rng: &mut Sm, base: u64, n: usize| -> Vec<String> {
+            let distinct = 1 + rng.below(3);
+            (0..n).map(|_| { let t = rng.below(distinct); list([(base + t).to_string(), fx(grid[(t % 3) as usize])]) }).collect()
+        };
+        let pa = rng.below(6) as usize;
+        let ob = if rng.chance(1, 2) { pa } else { rng.below(6) as usize };
+        let pp = mk(&mut rng, 1, pa);
+        // offspring share tags with the parents half of the time
+        let ob_base = if rng.chance(1, 2) { 1 } else { 101 };
+        let oo = mk(&mut rng, ob_base, ob);
+        let stack = vec![tagged("pop", oo), tagged("pop", pp)];
+        let op = *rng.pick(&["discard", "generational", "merge", "mupl", "mupl", "rand", "rand", "keepbetter"]);
+        let mu = match op {
+            "mupl" | "rand" | "generational" => Some(rng.below((pa + ob) as u64 + 2)),
+            _ => None,
+        };
+        emit(op, mu, rng.below(1 << 32), &stack, false);
+    }
+    // 3d. large populations (std's sort and shuffle take other code paths above 20 / 50 elements; shipped
+    //     templates use populations of 20..1000) with mu around every interesting cut.
+    let n_large = if a.thorough { 1200 } else { 120 };
+    for _ in 0..n_large {
+        let span = if rng.chance(1, 4) { 370 } else { 120 };
+        let pa = 30 + rng.below(span) as usize;
+        let ob = match rng.below(4) { 0 => pa, 1 => rng.below(8) as usize, _ => rng.below(200) as usize };
+        let k = 1 + rng.below(wide.len() as u64) as usize;
+        let few: Vec<f64> = (0..k).map(|_| *rng.pick(&wide)).collect();
+        let many = rng.chance(1, 2);
+        let val = |rng: &mut Sm| if many { (rng.below(1000) as f64) * 0.5 - 100.0 } else { *rng.pick(&few) };
+        let pp: Vec<Option<f64>> = (0..pa).map(|_| Some(val(&mut rng))).collect();
+        let oo: Vec<Option<f64>> = (0..ob).map(|_| Some(val(&mut rng))).collect();
+        let mut stack = vec![pop_str(10000, &oo), pop_str(0, &pp)];
+        if rng.chance(1, 2) { stack.push(below.clone()); }
+        let op = *rng.pick(&["merge", "generational", "discard", "mupl", "mupl", "mupl", "mupl", "rand", "rand", "keepbetter"]);
+        let n = (pa + ob) as u64;
+        let mu = match op {
+            "mupl" | "rand" | "generational" => Some(match rng.below(8) {
+                0 => 0, 1 => 1, 2 => pa as u64, 3 => n - 1, 4 => n, 5 => n + 1, _ => rng.below(n + 2),
+            }),
+            _ => None,
+        };
+        emit(op, mu, rng.below(1 << 32), &stack, false);
+    }
+    // 3e. mu at the boundaries of u16 / i32 / u32 (max_population_size is a u32 that is cast to usize).
+    for mu in [255u64, 256, 65535, 65536, 65537, (1 << 31) - 1, 1 << 31, (1 << 32) - 2, (1 << 32) - 1] {
+        for (pa, ob) in [(0usize, 0usize), (1, 0), (0, 1), (2, 3), (5, 5), (12, 30)] {
+            let pp: Vec<Option<f64>> = (0..pa).map(|_| Some(*rng.pick(&wide))).collect();
+            let oo: Vec<Option<f64>> = (0..ob).map(|_| Some(*rng.pick(&wide))).collect();
+            let stack = vec![pop_str(100, &oo), pop_str(0, &pp), below.clone()];
+            for op in ["mupl", "rand", "generational"] {
+                emit(op, Some(mu), rng.below(1 << 32), &stack, false);
+                emit(op, Some(mu), rng.below(1 << 32), &stack[..2], true);
+            }
+        }
+    }
+    // 3f. the public trait method `Replacement::replace` called directly on components built with
+    //     `from_params` (everything above goes through `new` + `execute`): exhaustive small pairs and random ones.
+    for pp in pats.iter().filter(|p| p.len() <= 2) {
+        for oo in pats.iter().filter(|p| p.len() <= 2) {
+            let n = (pp.len() + oo.len()) as u64;
+            let stack = vec![pop_str(100, oo), pop_str(0, pp)];
+            for op in ["discard", "merge", "keepbetter"] { emit(op, None, 0, &stack, true); }
+            emit("generational", Some(rng.below(4)), 0, &stack, true);
+            for mu in 0..=n + 1 {
+                emit("mupl", Some(mu), rng.below(1000), &stack, true);
+                emit("rand", Some(mu), rng.below(1 << 32), &stack, true);
+            }
+        }
+    }
+    let n_direct = if a.thorough { 8000 } else { 1000 };
+    for _ in 0..n_direct {
+        let pa = rng.below(12) as usize;
+        let ob = if rng.chance(1, 3) { pa } else { rng.below(12) as usize };
+        let unevaluated = rng.chance(1, 12);
+        let val = |rng: &mut Sm| if unevaluated && rng.chance(1, 4) { None } else { Some(*rng.pick(&wide)) };
+        let pp: Vec<Option<f64>> = (0..pa).map(|_| val(&mut rng)).collect();
+        let oo: Vec<Option<f64>> = (0..ob).map(|_| val(&mut rng)).collect();
+        let stack = vec![pop_str(100, &oo), pop_str(0, &pp)];
+        let op = *rng.pick(&["discard", "generational", "merge", "mupl", "mupl", "rand", "keepbetter", "keepbetter"]);
+        let mu = match op {
+            "mupl" | "rand" | "generational" => Some(rng.below((pa + ob) as u64 + 3)),
+            _ => None,
+        };
+        emit(op, mu, rng.below(1 << 32), &stack, true);
+    }
+    // 5. frequency oracle for RandomReplacement ("mu random ones"): every position of parents ++ offspring
+    //    survives min(mu, n)/n of the time, every pair min(mu,n)(min(mu,n)-1)/(n(n-1)) of the time, and the
+    //    outcome depends on the seed.
+    let runs = if a.thorough { 8000 } else { 2000 };
+    for (pa, ob) in [(1u64, 1u64), (2, 2), (3, 1), (1, 3), (4, 4), (5, 2), (2, 6), (0, 5), (6, 0), (7, 5)] {
+        let n = pa + ob;
+        let mut mus = vec![1, n / 2, pa.max(1), n - 1, n, n + 3];
+        mus.sort();
+        mus.dedup();
+        for mu in mus {
+            if mu == 0 { continue; }
+            emit_freq(mu, pa, ob, runs, rng.below(1 << 32));
+        }
+    }
     // 4. malformed stream (outside the property's quantifier): fewer than two populations,
     //    unevaluated individuals. Only the model's prediction (Err / panic / stack left) is compared.
     let n_mal = if a.thorough { 4000 } else { 600 };
@@ -220,7 +442,7 @@ fn main() {
             let objs: Vec<Option<f64>> = (0..n).map(|_| if rng.chance(1, 4) { None } else { Some(*rng.pick(&grid)) }).collect();
             stack.push(pop_str(100 * d, &objs));
         }
-        emit(op, mu, rng.below(1 << 32), &stack, true);
+        emit(op, mu, rng.below(1 << 32), &stack, false);
     }
-    out.finish();
+    out.into_inner().finish();
 }
